@@ -571,7 +571,23 @@ func classifyDisjunctive(l *loop) loopClass {
 				return loopClass{"", "cursor " + c.phi.Comment + " is not monotone on a back edge"}
 			}
 		}
-		if why := cursorProgress(l, c.phi, c.bound); why != "" {
+	}
+	// back edges on which some cursor is strictly larger than at the loop head decrease the ranking
+	// function directly (i++; j++; continue); the sub-loop argument is needed for the others
+	direct := map[*ssa.BasicBlock]bool{}
+	for i, pred := range h.Preds {
+		if !l.body[pred] {
+			continue
+		}
+		for _, c := range curs {
+			m := &mono{l: l, up: true}
+			if m.rel(c.phi.Edges[i], c.phi, map[ssa.Value]int{}) == 2 {
+				direct[pred] = true
+			}
+		}
+	}
+	for _, c := range curs {
+		if why := cursorProgress(l, c.phi, c.bound, direct); why != "" {
 			return loopClass{"", "cursor " + c.phi.Comment + ": " + why}
 		}
 	}
@@ -583,7 +599,7 @@ func classifyDisjunctive(l *loop) loopClass {
 // collect P as boolean formulas over atoms (callee, or comparison) applied to x[c'] and
 // check that the disjunction over the chain is a tautology. The inner loops must be on
 // every path from the outer header body entry to each back edge or leave the function.
-func cursorProgress(l *loop, c *ssa.Phi, bound ssa.Value) string {
+func cursorProgress(l *loop, c *ssa.Phi, bound ssa.Value, direct map[*ssa.BasicBlock]bool) string {
 	inner := findLoops(l.fn)
 	type guard struct {
 		f   formula
@@ -627,6 +643,9 @@ func cursorProgress(l *loop, c *ssa.Phi, bound ssa.Value) string {
 				// the inner loop must be executed on every iteration of the outer loop up to here:
 				// its header dominates all outer back edges or every path avoiding it leaves the function
 				for _, bk := range l.backs {
+					if direct[bk] {
+						continue
+					}
 					if !il.header.Dominates(bk) {
 						return "inner cursor loop is not on every path to the back edge"
 					}
